@@ -15,6 +15,7 @@ func main() {
 	if err != nil {
 		panic(err)
 	}
+	if os.Args[1] == "cp" { dbgCP(p); return }
 	fn := p.Fn(os.Args[1])
 	if fn == nil {
 		for _, f := range p.ModFuncs {
